@@ -593,7 +593,7 @@ def main(argv=None):
         for ext in (".v", ".vo", ".vok", ".vos", ".glob"):
             if os.path.exists(gen_file[:-2] + ext):
                 os.remove(gen_file[:-2] + ext)
-    if broken and rep.violations == 0 and not rep.known:
+    if broken and rep.violations == 0:      # known findings never hide a broken obligation
         rep.violation({"broken": True}, {"broken_obligations": broken,
                       "note": "proof obligation or correspondence machinery no longer checks; no failing input found"},
                       no_input=True)
